@@ -367,6 +367,54 @@ pub fn run(ctx: &Ctx) {
             ctx.violations(check_reject(47, &enc, "nsec-order"));
         }
     }
+    // NSEC values held in memory in any window order: written in RFC order, nothing lost
+    {
+        let mut orders: Vec<Vec<u8>> = Vec::new();
+        let alpha = [0u8, 1, 2, 255];
+        for m in 1u8..16 {
+            let set: Vec<u8> = alpha.iter().enumerate().filter(|(i, _)| m & (1 << i) != 0).map(|(_, w)| *w).collect();
+            // every permutation of the subset
+            let mut perm = set.clone();
+            let k = perm.len();
+            let mut c = vec![0usize; k];
+            orders.push(perm.clone());
+            let mut i = 0;
+            while i < k {
+                if c[i] < i {
+                    if i % 2 == 0 {
+                        perm.swap(0, i);
+                    } else {
+                        perm.swap(c[i], i);
+                    }
+                    orders.push(perm.clone());
+                    c[i] += 1;
+                    i = 0;
+                } else {
+                    c[i] = 0;
+                    i += 1;
+                }
+            }
+        }
+        for nw in [36usize, 100, 128, 129, 254, 255, 256] {
+            let asc: Vec<u8> = (0..nw).map(|w| w as u8).collect();
+            let mut rev = asc.clone();
+            rev.reverse();
+            let mut rot = asc.clone();
+            rot.rotate_left(1);
+            let mut sw0 = asc.clone();
+            sw0.swap(0, 1);
+            let mut swl = asc.clone();
+            swl.swap(nw - 2, nw - 1);
+            let inter: Vec<u8> = asc.iter().copied().filter(|w| w % 2 == 0).chain(asc.iter().copied().filter(|w| w % 2 == 1)).collect();
+            orders.extend([asc, rev, rot, sw0, swl, inter]);
+        }
+        for o in &orders {
+            t.evals += 1;
+            t.nontrivial += 1;
+            n += 1;
+            ctx.violations(check_nsec_order(o));
+        }
+    }
     // inner lengths one past the end
     for sch in SCHEMAS {
         for vals in gen::deviations(sch, 1, false) {
@@ -456,6 +504,44 @@ pub fn run(ctx: &Ctx) {
 
 /// Small conversions around the record types: EUI48 / EUI64 to byte arrays, address conversions of
 /// A / AAAA, Deref / DerefMut / From of the name-wrapping record types.
+/// An NSEC value held in memory with its windows in the given order: both serialisers must
+/// write the RFC 4034 encoding (every window, increasing window numbers).
+pub fn check_nsec_order(order: &[u8]) -> Vec<Finding> {
+    let case = json!({"kind": "nsec-order", "order": order});
+    let next = crate::refmodel::RefName::txt("next.example");
+    let win = |w: u8| (w, B(vec![0x40 >> (w % 3), w | 1]));
+    let unsorted = vec![Val::Name(next.clone()), Val::Windows(order.iter().map(|w| win(*w)).collect())];
+    let mut s = order.to_vec();
+    s.sort();
+    let sorted = vec![Val::Name(next), Val::Windows(s.iter().map(|w| win(*w)).collect())];
+    let mk = |vals: Vec<Val>| pkt_with(RefRR { name: crate::refmodel::RefName::txt("r.example"), class: 1, cache_flush: false, ttl: 77, rdata: typed(47, vals) }, true);
+    let (pu, ps) = (mk(unsorted), mk(sorted));
+    let want = ps.encode(0);
+    let mut out = Vec::new();
+    match guarded(|| to_lib(&pu).and_then(|l| l.build_bytes_vec().map_err(|e| format!("{:?}", e)))) {
+        Err(pn) => out.push(finding(format!("C10|NSEC|memory-order|{}", pn.sig()), format!("{:?}", pn), case.clone())),
+        Ok(Err(e)) => out.push(finding("C10|NSEC|memory-order|error", e, case.clone())),
+        Ok(Ok(bytes)) => {
+            if bytes != want {
+                out.push(finding("C10|NSEC|memory-order|layout", format!("{} windows held in memory in the order {:?}...: written {} expected {}", order.len(), &order[..order.len().min(8)], crate::engine::truncate(&hex(&bytes), 300), crate::engine::truncate(&hex(&want), 300)), case.clone()));
+            }
+        }
+    }
+    match guarded(|| to_lib(&pu).and_then(|l| l.build_bytes_vec_compressed().map_err(|e| format!("{:?}", e)))) {
+        Err(pn) => out.push(finding(format!("C10|NSEC|memory-order|compressed|{}", pn.sig()), format!("{:?}", pn), case.clone())),
+        Ok(Err(e)) => out.push(finding("C10|NSEC|memory-order|compressed|error", e, case.clone())),
+        Ok(Ok(bytes)) => match decode_packet(&bytes) {
+            Err(e) => out.push(finding("C10|NSEC|memory-order|compressed|undecodable", format!("{:?}: {}", e, crate::engine::truncate(&hex(&bytes), 300)), case.clone())),
+            Ok((d, _)) => {
+                for (tag, det) in diff(&ps, &d) {
+                    out.push(finding(format!("C10|NSEC|memory-order|compressed|{}", tag), format!("compressed build decodes differently: {}", crate::engine::truncate(&det, 600)), case.clone()));
+                }
+            }
+        },
+    }
+    out
+}
+
 pub fn check_conversions() -> (Vec<Finding>, u64) {
     use simple_dns::rdata::{A, AAAA, CNAME, EUI48, EUI64, NS, PTR};
     use simple_dns::Name;
@@ -630,6 +716,7 @@ pub fn check_svcb_builders(seq: &[u8], variant: usize, https: bool) -> Vec<Findi
 pub fn replay(case: &Value) -> Vec<Finding> {
     match case["kind"].as_str().unwrap_or("") {
         "conversions" => check_conversions().0,
+        "nsec-order" => check_nsec_order(&case["order"].as_array().map(|a| a.iter().filter_map(|x| x.as_u64().map(|v| v as u8)).collect::<Vec<u8>>()).unwrap_or_default()),
         "build" | "parse" => match serde_json::from_value::<RefPacket>(case["packet"].clone()) {
             Ok(p) => {
                 let fs = if case["kind"].as_str() == Some("build") { super::c09::check_build(&p) } else { super::c09::check_parse(&p, case["opt_pos"].as_u64().unwrap_or(0) as usize) };
